@@ -23,11 +23,14 @@ type ScenarioA struct {
 	InitialHeight uint64    `json:"initial_height"`
 	Chain         []pw.Step `json:"chain"`
 	Events        []Event   `json:"events"`
+	// CustomPayload: the chain signs a non-default payload (ManagerOptions.SignaturePayloadProvider).
+	CustomPayload bool `json:"custom_payload,omitempty"`
 }
 
 func genA(t *rapid.T) ScenarioA {
 	sc := ScenarioA{InitialHeight: c02gen.GenInitial(t)}
 	sc.Chain = c02gen.GenChain(t, world.Scale(8, 20))
+	sc.CustomPayload = rapid.IntRange(0, 3).Draw(t, "custompayload") == 0
 	evs := []Event{}
 	for i, st := range sc.Chain {
 		// the first block of the chain is the pre-saved genesis block: always empty
@@ -65,7 +68,7 @@ func runA(sc ScenarioA, dir string) world.Verdict {
 	return sw.InBubble(func() world.Verdict {
 		root, _ := os.MkdirTemp(dir, "c02")
 		defer os.RemoveAll(root)
-		c, err := fw.BuildChain(world.NodeOpts{ChainID: "c02-chain", InitialHeight: sc.InitialHeight, RootDir: root + "/p"}, chainSteps(sc.Chain))
+		c, err := fw.BuildChain(world.NodeOpts{ChainID: "c02-chain", InitialHeight: sc.InitialHeight, RootDir: root + "/p", CustomPayload: sc.CustomPayload}, chainSteps(sc.Chain))
 		if err != nil {
 			return world.Fail("C02/chain", "cannot build the proposer chain: %v", err)
 		}
